@@ -6,6 +6,7 @@ func init() {
 		checkIngestPacket(c, "C14", true, true)
 		checkHandleConn(c, "C14", true, true)
 		checkReadStream(c, "C14")
+		checkStreamLabelConsistent(c, "C14")
 		checkDecryptHelper(c, "C14")
 		// receivers try every installed key; keys come from the keyring
 		checkKeyUse(c)
@@ -21,5 +22,6 @@ func init() {
 		checkIngestPacket(c, "C16", true, false)
 		checkHandleConn(c, "C16", true, false)
 		checkLabelWiring(c)
+		checkStreamLabelConsistent(c, "C16")
 	})
 }
